@@ -196,6 +196,18 @@ CHECKS['C17'] = dict(
          'value round trips beyond bug-hunting, number formatting of decimals and doubles.',
     technique='SMT-based symbolic execution (CrossHair/z3) of the JSON escape/unescape kernels vs an independent decoder',
     design='DESIGN.md §4 C17')
+CHECKS['C19'] = dict(
+    text='The locale module used by elementpath.collations is replaced by a stub whose set of installed locales is chosen by the '
+         'solver (de, en_US, it_IT, any other: every configuration, including none beyond C/POSIX); for two-evaluation histories over '
+         '10 collation URIs (code point, HTML, UCA with lang/fallback yes/no/invalid, bare locale names, malformed) x 8 '
+         'collation-taking functions, after each evaluation - returned or raised - the collation lock is observed free, LC_COLLATE is '
+         'the initial one, the exception (if any) is an ElementPathError, the second result equals the one obtained alone, and '
+         'os.environ is unchanged. environment-variable() and available-environment-variables() are empty for every symbolic name.',
+    note='Trusted: the locale stub implements the documented setlocale/getlocale contract; CrossHair is single-threaded. Out '
+         '(stated): thread interleavings of independent Selectors, entity expansion in fn:parse-xml (expat, C code), the real C locale '
+         'library, the decimal context.',
+    technique='SMT-based symbolic execution (CrossHair/z3) with the installed-locale configuration as solver variables over 2-step histories',
+    design='DESIGN.md §4 C19')
 NOT_APPLICABLE = {
     'C04': 'Quantifies over program syntax and hash seeds: no value domain to make symbolic; symbolic source text does not get through '
            'the tokenizer regex under CrossHair (600 CPU-s, len<=2, no verdict); a table-level z3 check would verify a model of the '
